@@ -138,8 +138,12 @@ func c04One(drv *core.Driver, prefix, ds []jr.Dir, conform bool) (string, string
 	drv.Files(map[string]string{"j.knut": text})
 	v := ref.Lifecycle(all)
 	validated := 0
-	for _, cmd := range [][]string{{"check", "j.knut"}, {"print", "j.knut"}, {"balance", "--color=false", "j.knut"}} {
+	for _, cmd := range [][]string{{"check", "j.knut"}, {"print", "j.knut"}, {"balance", "--color=false", "j.knut"}, {"check", "--write", "j.knut"}} {
 		out := drv.Run(nil, cmd...)
+		if cmd[1] == "--write" {
+			// the same verdict and diagnostic as plain check; reported under its own name
+			cmd = []string{"check--write", "j.knut"}
+		}
 		if ab := out.Abnormal(); ab != "" {
 			return "C04:abnormal:" + cmd[0], fmt.Sprintf("%s: %s\njournal:\n%s", cmd[0], ab, text), validated
 		}
@@ -182,7 +186,7 @@ func c04One(drv *core.Driver, prefix, ds []jr.Dir, conform bool) (string, string
 				return "C04:wrong-directive-named:" + cmd[0] + ":" + scrub(v.Reason),
 					fmt.Sprintf("diagnostic does not name an offending directive (expected one of %v)\nstderr: %s\njournal:\n%s", v.Candidates, out.Stderr, text), validated
 			}
-			if (cmd[0] == "print" || cmd[0] == "balance") && out.Stdout != "" {
+			if (cmd[0] == "print" || cmd[0] == "balance" || cmd[0] == "check--write") && out.Stdout != "" {
 				return "C04:output-on-reject:" + cmd[0], "stdout not empty on a rejected journal\n" + text, validated
 			}
 		}
